@@ -202,6 +202,10 @@ func runOne(r *hxlib.Run, s sc, mutants bool) {
 }
 
 func main() {
+	if hxconn.IsChild() {
+		hxconn.ChildMain()
+		return
+	}
 	r := hxlib.Start("C04", "one run of a real TcpConn (or TcpServer) over loopback TCP; non-trivial when at least two of {sender, graceful closer, forced closer, peer fault, forced schedule} overlapped in time; distinct by scenario shape")
 	defer r.Finish()
 	log.SetOutput(io.Discard)
@@ -221,7 +225,15 @@ func main() {
 				qnet.TConnReadTimeout = 1
 			}
 			// (a free-running scenario is not a function of its description alone: look again before giving up)
-			for k := 0; k < 5 && !r.Failed(); k++ {
+			reps := 5
+			if c.Scenario.Peer.Hold >= 5000 {
+				reps = 1 // (a stall of many seconds decides by wall-clock time, not by the schedule)
+			}
+			for k := 0; k < reps && !r.Failed(); k++ {
+				if c.Scenario.Iso {
+					record(r, hxconn.RunIsolatedBelievably(c.Scenario, hxconn.CheckC04), false)
+					continue
+				}
 				runOne(r, c.Scenario, false)
 			}
 		}
@@ -268,6 +280,10 @@ func main() {
 	for _, s := range fixed {
 		runOne(r, s, true)
 	}
+	diversityLegs(r)
+	if os.Getenv("HX_ONLY") == "diversity" { // (development aid: only the third-wave legs)
+		return
+	}
 	for k := 0; k < r.Scale(400, 4000); k++ {
 		runOne(r, genMix(r.R), k%4 == 0)
 	}
@@ -301,6 +317,22 @@ func main() {
 	}
 	for k := 0; k < r.Scale(10, 100); k++ {
 		runListener(r, genListener(r.R))
+	}
+	// third-wave leg (K4): listener configurations never used above — 2..3 Listen calls on one server, V2, outbound
+	// queue 0/1/8/64, Shutdown() for Close(), one packet each way through every handed-off connection, and Close on a
+	// server that never listened. (A stream of its own: the cases above stay what they were.)
+	RL := hxlib.NewRand(r.Seed ^ 0xC0411)
+	for _, c := range []ListenerCase{
+		{Before: 4, Drain: true, During: 2, ConnClose: "before", Listens: 2, Traffic: true, Jitter: 6},
+		{Before: 3, Drain: true, During: 3, ConnClose: "after", Listens: 3, V2: true, Shutdown: true, Traffic: true, Jitter: 7},
+		{Listens: -1, ConnClose: "before", Jitter: 8},
+	} {
+		runListener(r, c)
+		r.Count("listener:configurations")
+	}
+	for k := 0; k < r.Scale(12, 120); k++ {
+		runListener(r, genListenerCfg(RL))
+		r.Count("listener:configurations")
 	}
 }
 
